@@ -43,6 +43,23 @@ class _SelMod:
     EVENT_READ = 1
     DefaultSelector = _Selector
 
+class AppOrder(set):
+    """Session._listeners with a scripted iteration order: the application listeners (class `cls`) first or last, the
+    others in registration order."""
+    def __init__(self, items, cls, first):
+        set.__init__(self); self.cls, self.first, self.seq = cls, first, []
+        for x in items: self.add(x)
+    def add(self, x):
+        if x not in self: self.seq.append(x)
+        set.add(self, x)
+    def discard(self, x):
+        if x in self: self.seq.remove(x)
+        set.discard(self, x)
+    def __iter__(self):
+        apps = [x for x in self.seq if isinstance(x, self.cls)]
+        rest = [x for x in self.seq if not isinstance(x, self.cls)]
+        return iter(apps + rest if self.first else rest + apps)
+
 class LDict(dict):
     """RPCReplyListener._id2rpc with every access logged as an effect."""
     def __init__(self, *a):
@@ -219,6 +236,11 @@ class Scenario:
                     ses.get_listener_instance(AppListener)
                 def errback(inner, err):
                     ses.remove_listener(inner)
+                    if str(spec['app']).startswith('raise'):
+                        raise RuntimeError('application errback fails')      # a buggy application errback
+            if spec['app'] in ('raise_first', 'raise_last'):
+                # the iteration order of the listener set is the environment's choice: scripted here
+                ses._listeners = AppOrder(ses._listeners, AppListener, spec['app'] == 'raise_first')
             for _ in range(2):
                 ses.add_listener(AppListener())
         real_run = ses.run
